@@ -9,6 +9,9 @@ read with plain sqlite3 and compared with the model, query arguments are compose
 relation sets of all orders of one graph must coincide.  After that several generators of the same FeatureDB are
 kept alive at once (nested loops, zip, random schedules): each must yield what it yields alone.  A separate "wide"
 class has one feature with more than 1000 direct children, the last of which have children themselves.
+Further classes: lines WITHOUT an ID attribute (stored under '<featuretype>_<n>'), several of them byte-identical under one
+parent; files that mix both spellings of several parents (repeated keys / comma list) with either one in the majority;
+ids and Parent values that differ only in letter case, look numeric or consist of SQL wildcard characters.
 """
 import os
 import random
@@ -33,7 +36,15 @@ RULE = ("GFF3 annotation graphs: DAGs of 1-4 layers and <= 12 lines, every line 
         "shuffled; every feature is queried.  'interleaved generators' (every import): a nested loop children(x,1) -> "
         "children(t,1)/parents(t) and two schedules (zip-like round robin or random) over 2-4 live children()/parents() "
         "generators of the one FeatureDB; each generator is compared with the same call consumed alone with list() and with "
-        "the model")
+        "the model.  'lines without ID attribute': 1-n lines that nobody names as Parent lose their ID attribute (they are "
+        "stored under '<featuretype>_<n>', n counting the id-less lines of that featuretype in file order, so the model is "
+        "built per line order), 70% of them are written 2-4 times BYTE-IDENTICALLY (same parents: level-1 and level-2 "
+        "relatives of the same features), others once more with other coordinates; every order <= 5 lines for a sample.  "
+        "'mixed spelling': every line writes Parent (and mostly two Dbxref values) as repeated keys while 1-2 lines with >= 2 "
+        "parents use one comma list (3 of 4 graphs; the inferred dialect, read from FeatureDB.dialect, is counted), or "
+        "the reverse mixture.  'look-alike ids': 2-5 ids / dangling Parent values of related lines are renamed within one "
+        "family: letter-case variants of one word, numeric-looking ('1', '01', '1.0', '1e0', ...), SQL wildcard strings ('%', "
+        "'_', 'a_', 'ab', 'a%', ...; '%' is written %25)")
 REQUIRED = ["imports", "children()/parents() calls compared with the model", "relation rows compared",
             "level-2 rows compared", "argument-composition queries compared", "iter_by_parent_childs groups compared",
             "line-order pairs with identical relation sets", "dangling Parent values (no error, no phantom)",
@@ -44,10 +55,24 @@ REQUIRED = ["imports", "children()/parents() calls compared with the model", "re
             "wide: nested loops over > 1000 children, one or two inner generators each",
             "interleaved: generators consumed while another generator of the same FeatureDB was alive",
             "interleaved: nested loops with >= 2 outer items and a non-empty inner result",
-            "interleaved: schedules over >= 2 non-empty generators (one with >= 2 items)"]
+            "interleaved: schedules over >= 2 non-empty generators (one with >= 2 items)",
+            "id-less: lines without ID attribute imported",
+            "id-less: byte-identical lines imported (beyond the first of each text)",
+            "id-less: children() results holding >= 2 byte-identical features, each returned once, level=1",
+            "id-less: children() results holding >= 2 byte-identical features, each returned once, level=2",
+            "id-less: children() results holding >= 2 byte-identical features, each returned once, level=None",
+            "id-less: parents() of one of several byte-identical features compared (non-empty)",
+            "mixed spelling: imports whose inferred dialect says 'repeated keys' with a comma-list Parent of >= 2 values",
+            "mixed spelling: imports whose inferred dialect says no repeated keys with a Parent written as repeated keys",
+            "mixed spelling: lines with a comma-list Parent and another attribute as repeated keys",
+            "look-alike ids: ids / Parent values renamed within one family"]
 REQUIRED_CLASSES = ["ids=word", "ids=hostile", "Parent=comma list", "Parent=repeated keys", "order=children first",
                     "graph: multi-parent", "graph: level-2 pairs", "graph: dangling Parent", "graph: shortcut (level 1 and 2)",
-                    "graph: two level-2 paths to one feature", "graph: wide (> 1000 direct children)"]
+                    "graph: two level-2 paths to one feature", "graph: wide (> 1000 direct children)",
+                    "lines without ID attribute", "lines without ID attribute: byte-identical lines",
+                    "lines without ID attribute: byte-identical lines with >= 2 parents",
+                    "mixed spelling: majority repeat", "mixed spelling: majority comma", "ids=confusable",
+                    "confusable ids: letter case", "confusable ids: numeric-looking", "confusable ids: SQL wildcard"]
 ASSUMPTIONS = [
     "the reference model gvmon/models/hierarchy.py is a faithful reading of the statement: relatives are stored features "
     "only; level 2 = composition of two Parent edges; level None = union",
@@ -61,7 +86,14 @@ ASSUMPTIONS = [
     "coordinates far below 2^29 (larger ones are C06's)",
     "iter_by_parent_childs(featuretype) is judged as [parent] + all children(parent) for every stored feature of that "
     "type, groups in any order (its level/order_by arguments are not exercised)",
-    "every line carries an ID (auto-generated ids are C04's); Parent lists do not repeat a value; graphs are acyclic",
+    "a line without ID attribute is a stored feature of its own under the id '<featuretype>_<n>', n = 1, 2, ... counting the "
+    "id-less lines of that featuretype in file order (byte-identical lines included: identical text does not make them one "
+    "feature); such lines are never named as Parent and no written ID / Parent value has that shape (other id_spec settings "
+    "and update() are C04's); for these graphs the relation sets of two line orders are compared after replacing each "
+    "generated id by the text of its line",
+    "Parent=a,b and Parent=a;Parent=b name the same two parents whatever spelling the rest of the file uses",
+    "ids are compared as exact strings (letter case, leading zeros, '%' and '_' are ordinary characters)",
+    "Parent lists do not repeat a value; graphs are acyclic",
     "interleaved generators: the database is not modified while they are alive; each generator is compared as a multiset "
     "with the same call consumed alone (the statement fixes no order without order_by) and with the model",
 ]
@@ -246,6 +278,9 @@ def one_import(ctx, case, oi, order, nodes, rel, lower, upper):
                             why = "%s(x, level=%r) returns a feature more than once" % (name, level)
                         elif x in ids:
                             why = "%s(x, level=%r) contains x itself" % (name, level)
+                        elif set(exp) - set(ids) and set(exp) - set(ids) <= set(twin) and not set(ids) - set(exp):
+                            why = ("%s(x, level=%r): of several byte-identical lines without ID (distinct stored features) "
+                                   "not every one is returned" % (name, level))
                         ctx.violation(case, {"why": T + why, "x": x, "got": ids, "expected": exp, "order": order, "text": text})
                         return None
                     for f in got:
@@ -684,7 +719,11 @@ MANIFEST = {
             "the same relation set. A 'wide' class puts more than 1000 direct children under one feature, the last of them with "
             "children of their own, and queries every feature. On every imported database two or more children()/parents() "
             "generators are kept alive at once (nested loops, zip-like round robin, random schedules); each must yield what "
-            "the same call yields when consumed alone and what the model says. Held = no executed import disagreed.",
+            "the same call yields when consumed alone and what the model says. Three more classes: lines without ID attribute "
+            "(stored under '<featuretype>_<n>'), several byte-identical under the same parents - each is a stored feature and "
+            "must come back once at every level; files mixing repeated-key and comma-list spelling of several parents with "
+            "either one deciding the inferred dialect; ids that differ only in letter case, look numeric or are made of SQL "
+            "wildcard characters. Held = no executed import disagreed.",
     "note": "Trusted: gvmon/models/hierarchy.py. The hostile-id class (blanks at the ends, U+0085/U+00A0, escaped TAB/LF) is "
             "kept apart: its violations are prefixed 'hostile-id class:'. update()/delete() histories are C10's.",
 }
